@@ -16,7 +16,6 @@ import time
 VERIF = os.path.dirname(os.path.dirname(os.path.abspath(__file__)))
 LEAN_DIR = os.path.join(VERIF, "lean")
 REPO = os.environ.get("VERIF_REPO", "/repo")
-DRIVER = os.path.join(LEAN_DIR, ".lake", "build", "bin", "modeldrv")
 ALLOWED_AXIOMS = {"propext", "Classical.choice", "Quot.sound"}
 FORBIDDEN = re.compile(
     r"\bsorry\b|\badmit\b|^\s*axiom\s|native_decide|bv_decide|implemented_by|\bunsafe\s|maxHeartbeats\s+0\b"
@@ -113,13 +112,14 @@ def theorem_names(props_file: str) -> list[str]:
     return names
 
 
-def import_closure(module: str) -> list[str]:
-    """Lean source files under lean/ that `module` transitively imports (Aiortc.* only)."""
+def import_closure(module, modules: bool = False) -> list[str]:
+    """Lean source files under lean/ that `module` (or a list of modules) transitively imports
+    (Aiortc.* / Drivers.* only); with modules=True the module names instead of the paths."""
     seen: dict[str, str] = {}
-    todo = [module]
+    todo = [module] if isinstance(module, str) else list(module)
     while todo:
         m = todo.pop()
-        if m in seen or not m.startswith("Aiortc"):
+        if m in seen or not (m.startswith("Aiortc") or m.startswith("Drivers")):
             continue
         path = os.path.join(LEAN_DIR, *m.split(".")) + ".lean"
         if not os.path.exists(path):
@@ -130,7 +130,7 @@ def import_closure(module: str) -> list[str]:
                 mm = re.match(r"\s*(?:public\s+)?import\s+(\S+)", line)
                 if mm:
                     todo.append(mm.group(1))
-    return sorted(seen.values())
+    return sorted(seen.keys()) if modules else sorted(seen.values())
 
 
 def grep_forbidden(files: list[str]) -> list[str]:
@@ -192,12 +192,20 @@ def audit(prop: str) -> dict:
 # --------------------------------------------------------------------------------------
 
 
-def run_driver(lines: list[str], timeout: int = 600) -> list[str]:
-    """One request per line in, one reply per line out."""
-    if not os.path.exists(DRIVER):
-        raise RuntimeError("model driver not built: " + DRIVER)
+def driver_path(prop: str) -> str:
+    return os.path.join(LEAN_DIR, ".lake", "build", "bin", f"drv_{prop}")
+
+
+def run_driver(prop: str, lines: list[str], timeout: int = 1200) -> list[str]:
+    """One request per line in, one reply per line out (compiled model driver of property `prop`)."""
+    drv = driver_path(prop)
+    if not os.path.exists(drv):
+        raise RuntimeError("model driver not built: " + drv)
+    for l in lines:
+        if "\n" in l:
+            raise RuntimeError("newline inside a driver request")
     data = "\n".join(lines) + "\n"
-    p = subprocess.run([DRIVER], input=data, stdout=subprocess.PIPE, stderr=subprocess.PIPE, text=True, timeout=timeout)
+    p = subprocess.run([drv], input=data, stdout=subprocess.PIPE, stderr=subprocess.PIPE, text=True, timeout=timeout)
     if p.returncode != 0:
         raise RuntimeError(f"model driver failed ({p.returncode}): {p.stderr[:2000]}")
     out = p.stdout.split("\n")
